@@ -50,7 +50,14 @@ SLOTS = [
     ['$SIGMA 0.3\n', '$SIGMA  0.3 ; RUV\n'],
     # 9
     ['$ESTIMATION METHOD=1 INTERACTION\n',
-     '$EST METH=COND INTER MAXEVAL=99 ; est\n$COV\n$TABLE ID TIME DV NOAPPEND FILE=sdtab1\n'],
+     '$EST METH=COND INTER MAXEVAL=99 ; est\n$COV\n$TABLE ID TIME DV NOAPPEND FILE=sdtab1\n',
+     # a record between two tables
+     '$ESTIMATION METHOD=1 INTERACTION\n$TABLE ID TIME DV NOAPPEND FILE=sdtab1\n$COVARIANCE PRINT=E\n'
+     '$TABLE ID CL NOAPPEND FILE=patab1 ; second\n',
+     # a second $PROBLEM with its own table
+     '$ESTIMATION METHOD=1 INTERACTION\n$TABLE ID TIME DV NOAPPEND FILE=sdtab1\n'
+     f'$PROBLEM second\n$INPUT ID TIME AMT WGT APGR DV FA1 FA2\n$DATA {DATA} IGNORE=@ REWIND\n$THETA 1\n'
+     '$OMEGA 1\n$SIGMA 1\n$ESTIMATION METHOD=0 MAXEVAL=0\n$TABLE ID NOAPPEND FILE=mytab1 ; keep me\n'],
 ]
 NS = [len(s) for s in SLOTS]
 EDIT = int(os.environ.get('VH_EDIT', '0'))
@@ -60,7 +67,8 @@ VARY = {'head': (0, 1, 2, 9), 'params': (4, 5, 6, 7, 8), 'all': tuple(range(10))
 # slot whose record(s) express the edited component (not compared)
 #  0: none (regeneration of the unmodified model)   1: initial estimate of the first theta   2: description
 #  3: initial estimate of the sigma                  4: a statement of $PK
-CHANGED = {0: None, 1: 6, 2: 1, 3: 8, 4: 4}
+#  5: the model name (run2: the table files of this problem are renamed, nothing else)
+CHANGED = {0: None, 1: 6, 2: 1, 3: 8, 4: 4, 5: 9}
 
 Model.parse_model_from_string(''.join(s[0] for s in SLOTS))       # warm up parsers / dataset reader
 
@@ -92,11 +100,15 @@ def _body(idx, edit):
         m2 = m.replace(description='other')
     elif edit == 3:
         m2 = pm.set_initial_estimates(m, {m.parameters.names[-1]: 0.25})
+    elif edit == 5:
+        m2 = m.replace(name='run2')
     else:
         s1 = m.statements.find_assignment('S1')
         m2 = m.replace(statements=m.statements.reassign(s1.symbol, s1.expression * 1000))
     out = m2.update_source().code
     if out == text:
+        if edit == 5 and 'FILE=' not in text:
+            return True                     # no table to rename
         raise AssertionError('the edit did not change the code')
     changed = CHANGED[edit]
     pos = 0
